@@ -13,7 +13,7 @@ import ast
 from sa.model import AnalysisError
 from sa.ctx import Ctx, short, stmt_key
 from sa.cfg import NORMAL, describe_path
-from sa.report import Report
+from sa.report import Report, section
 from sa.util import cfg_root, node_has_call, has_fact, fact_in, local_assigned_from
 from sa import pat
 
@@ -175,7 +175,7 @@ def run(ctx: Ctx, rep: Report, tier: str):
     rep.rule("C01.R8", "parent first: when a changed parent folder blocks an entry, both priority assignments of the gentle punt leave the parent's "
              "priority strictly below (= earlier than) the child's, and a non-negative priority never becomes negative", 2)
     from rules.common import parent_first_priorities
-    parent_first_priorities(ctx, rep, "C01.R8")
+    section(rep, lambda: parent_first_priorities(ctx, rep, "C01.R8"))
     rep.rule("C01.R9", "the parent-conflict search climbs every ancestor: inside its loop _get_parent_conflict moves to the parent and recomputes the parent's parent", 1)
     gp = M.methods["_get_parent_conflict"]
     loops = [n for n in ctx.own_nodes(gp) if isinstance(n, ast.While)]
@@ -191,13 +191,13 @@ def run(ctx: Ctx, rep: Report, tier: str):
               "the ancestor walk of _get_parent_conflict no longer climbs (only the immediate parent is examined): a changed grand-parent is synced after its descendants")
     from rules.common import kids_sync_path_rebased
     rep.rule("C01.R10", "a renamed folder re-bases each child's last-synced path from the child's own old last-synced path (C04.R4)", 1)
-    kids_sync_path_rebased(ctx, rep, "C01.R10")
+    section(rep, lambda: kids_sync_path_rebased(ctx, rep, "C01.R10"))
     from rules.common import alias as _alias
     from rules.C17 import C17 as _C17
     _alias(rep, ["C17.A6", "C17.A5", "C17.A7"], "C01.R11", "change stamps strictly increase (C17.A6): a second edit in the same clock tick / after a clock step back still outdates the last refresh, so the newest content is the one that is uploaded", 1, lambda: _C17(ctx, rep).a5_a7())
     from rules.common import event_application_writes_through
     rep.rule("C01.R12", "every field of a provider event reaches the state of the side it came from (C14.W11): nothing the engine is told is dropped or booked on the other side", 12)
-    event_application_writes_through(ctx, rep, "C01.R12")
+    section(rep, lambda: event_application_writes_through(ctx, rep, "C01.R12"))
     rep.rule("C01.R13", "bounded work per entry: inside sync() a side's turn ends early only (a) because that side needs no sync, (b) after finished(side, sync), or (c) because the "
              "OTHER side still has a pending change that will be handled first - never by silently skipping a side that needs work", 4)
     sf = M.methods["sync"]
@@ -230,20 +230,20 @@ def run(ctx: Ctx, rep: Report, tier: str):
         raise AnalysisError("SyncManager.sync: only %d early exits found before embrace_change (expected >= 4)" % k13)
     from rules.common import transfer_success_chain
     rep.rule("C01.R14", "a content change is finished only when it was transferred (C02.R10): download and upload results are tested, failure punts", 2)
-    transfer_success_chain(ctx, rep, "C01.R14")
+    section(rep, lambda: transfer_success_chain(ctx, rep, "C01.R14"))
     from rules.common import definition_holds
     rep.rule("C01.R15", "the definition of 'needs sync' (what keeps an entry pending, hence when the engine goes quiet): forced, or changed with an id and (content differs "
              "from last sync, or path differs, or the side is gone)", 2)
-    definition_holds(ctx, rep, "C01.R15", "SideState.needs_sync", "an entry that differs between the sides can be dropped from the work list (quiet but unequal), or one that does not can stay pending for ever")
-    definition_holds(ctx, rep, "C01.R15", "SyncEntry.needs_sync", "a change on one side is not seen as work")
+    section(rep, lambda: definition_holds(ctx, rep, "C01.R15", "SideState.needs_sync", "an entry that differs between the sides can be dropped from the work list (quiet but unequal), or one that does not can stay pending for ever"))
+    section(rep, lambda: definition_holds(ctx, rep, "C01.R15", "SyncEntry.needs_sync", "a change on one side is not seen as work"))
     from rules.common import embrace_dispatch
     rep.rule("C01.R16", "the sync step dispatches on the state of the changed side, each arm under exactly its own condition: missing -> handle_changed_is_missing, renamed or new -> "
              "handle_path_change_or_creation, content differs / corrupt peer -> handle_hash_diff", 3)
-    embrace_dispatch(ctx, rep, "C01.R16")
+    section(rep, lambda: embrace_dispatch(ctx, rep, "C01.R16"))
     from rules.C07 import C07 as _C07
     _alias(rep, ["C07.R6"], "C01.R17", "a download that failed half-way is never taken for a complete one (C07.R6: bytes go to a '.tmp' sibling, published by rename): the two sides "
            "do not end up quiet with a truncated copy", 2, lambda: _C07(ctx, rep).r6())
     from rules.common import dir_delete_rechecks_kids
     rep.rule("C01.R18", "a folder delete that meets children makes progress: the children are looked up under the folder's current path on the deleting side and force-synced, "
              "and so is the folder (C04.R7) - otherwise the delete is retried until it is given up and the trees stay different", 3)
-    dir_delete_rechecks_kids(ctx, rep, "C01.R18")
+    section(rep, lambda: dir_delete_rechecks_kids(ctx, rep, "C01.R18"))
